@@ -137,7 +137,8 @@ class C15(object):
                          'user_function_replaced_after_an_accepted_search.cases',
                          'equation_that_cannot_be_evaluated.cases',
                          'accepted.equations_evaluated_independently',
-                         'derived_variable_overflows.cases')
+                         'derived_variable_overflows.cases',
+                         'names_beginning_like_the_excluded_ones.cases')
 
     def n_cases(self, tier):
         return 300 if tier == 'quick' else 20000
@@ -179,6 +180,17 @@ class C15(object):
             return {'kind': 'search', 'dyn': d, 'text': text, 'T': rng.choice([100, 200, 300]), 'loop_default_tolerance': False,
                     'coarse_step_tolerance': False, 'tol': 10 ** rng.uniform(-6, -3), 'reduction': rng.random() < 0.5,
                     'via_solve': (idx // 12) % 2 == 1, 'rules': [[a_, b1], [a_, b2]]}
+        if idx % 24 == 8:
+            # variables whose names begin like the excluded ones (t_rev, k_stock next to t and k): a drifting capital stock, or a
+            # stable system whose tax revenue must be installed like everything else
+            drifting = (idx // 24) % 2 == 0
+            text = ('k_stock = LAG_k_stock + %s\nLAG_k_stock = k_stock(k-1)\nt_rev = 0.2*y_out\ny_out = 0.5*LAG_y + 10.0 + 0.0*k_stock\n'
+                    'LAG_y = y_out(k-1)\nk_stock(0) = 5.0\nMaxTime = 5' % ('1.0' if drifting else '0.5*(8.0 - LAG_k_stock)'))
+            d = {'rows': [], 'names': ['k_stock', 't_rev', 'y_out'], 'ics': {}, 'exo': None, 'deco': False,
+                 'kinds': ['names_beginning_like_the_excluded_ones'], 'loop': None, 'near_cancel': None}
+            return {'kind': 'search', 'dyn': d, 'text': text, 'T': rng.choice([60, 100, 200]), 'loop_default_tolerance': False,
+                    'coarse_step_tolerance': False, 'tol': 10 ** rng.uniform(-6, -3), 'reduction': rng.random() < 0.5,
+                    'via_solve': False, 'lookalike_names': True}
         if idx % 24 == 20:
             # a derived-only variable that overflows to +/- infinity (no Python exception) while everything else settles
             sgn = rng.choice(['', '-'])
@@ -326,6 +338,8 @@ class C15(object):
             rec.count('equation_that_cannot_be_evaluated.cases')
         if case.get('overflowing_derived'):
             rec.count('derived_variable_overflows.cases')
+        if case.get('lookalike_names'):
+            rec.count('names_beginning_like_the_excluded_ones.cases')
         exo_names = [n for n, _ in s.Parser.Exogenous]
 
         def snap():
